@@ -25,10 +25,10 @@ static std::string node(const PIP_Tree_Node* n, unsigned D0, const std::vector<u
   else { const PIP_Decision_Node* d = n->as_decision(); o << ",\"kind\":\"dec\",\"t\":" << node(d->child_node(true), D, vars) << ",\"f\":" << node(d->child_node(false), D, vars); }
   o << "}"; return o.str();
 }
-struct Data { unsigned D; std::vector<bool> is_par; std::vector<Constraint> cs; };
+struct Data { unsigned D; std::vector<bool> is_par; std::vector<Constraint> cs; int bmax; Data() : D(0), bmax(7) {} };
 static std::string data_json(const Data& d, int id, int step, int cut, int piv) {
   std::ostringstream o; std::vector<long> vars, pars; for (unsigned k = 0; k < d.D; ++k) (d.is_par[k] ? pars : vars).push_back(k);
-  o << "\"id\":" << id << ",\"step\":" << step << ",\"D\":" << d.D << ",\"cut\":" << cut << ",\"piv\":" << piv << ",\"vars\":["; for (size_t i = 0; i < vars.size(); ++i) o << (i ? "," : "") << vars[i];
+  o << "\"id\":" << id << ",\"step\":" << step << ",\"bmax\":" << d.bmax << ",\"D\":" << d.D << ",\"cut\":" << cut << ",\"piv\":" << piv << ",\"vars\":["; for (size_t i = 0; i < vars.size(); ++i) o << (i ? "," : "") << vars[i];
   o << "],\"pars\":["; for (size_t i = 0; i < pars.size(); ++i) o << (i ? "," : "") << pars[i]; o << "],\"cs\":[";
   for (size_t i = 0; i < d.cs.size(); ++i) o << (i ? "," : "") << con(d.cs[i], d.D); o << "]"; return o.str();
 }
@@ -37,11 +37,14 @@ static Constraint rnd_con(RNG& r, unsigned D, bool allow_strict) {
   int t = r() % 8; return t == 0 ? Constraint(e == 0) : (t == 1 && allow_strict) ? Constraint(e > 0) : Constraint(e >= 0);
 }
 int main(int argc, char** argv) {
-  int N = atoi(argv[1]); RNG r(atoi(argv[2]));
+  int N = atoi(argv[1]); RNG r(atoi(argv[2])); int wide = argc > 3 ? atoi(argv[3]) : 0;
+  // profile "wide": 3 (one time in four 4) explicitly bounded variables, 2-5 constraints, solved fresh only -- enough columns for the
+  // pivot-column selection to matter; the variables are bounded by 5, so the brute-force box of the specification is 0..5 ("bmax")
   for (int id = 0; id < N; ++id) {
-    Data d; unsigned nv = 1 + r() % 2, np = 1 + r() % 2; d.D = nv + np; d.is_par.assign(d.D, false); for (unsigned k = nv; k < d.D; ++k) d.is_par[k] = true;
-    int nc = 1 + r() % 3; for (int c = 0; c < nc; ++c) d.cs.push_back(rnd_con(r, d.D, true));
-    int cut = r() % 3, piv = r() % 2; int nsteps = 1 + r() % 3;
+    Data d; unsigned nv = wide ? (r() % 4 == 0 ? 4 : 3) : 1 + r() % 2, np = 1 + r() % 2; d.D = nv + np; d.is_par.assign(d.D, false); for (unsigned k = nv; k < d.D; ++k) d.is_par[k] = true;
+    int nc = wide ? 2 + r() % 4 : 1 + r() % 3; for (int c = 0; c < nc; ++c) d.cs.push_back(rnd_con(r, d.D, !wide));
+    if (wide) { d.bmax = 5; for (unsigned k = 0; k < nv; ++k) d.cs.push_back(Constraint(Variable(k) <= 5)); }
+    int cut = r() % 3, piv = r() % 2; int nsteps = wide ? 1 : 1 + r() % 3;
     // the incremental script is drawn first so that the forked child and the parent agree on the data
     struct Inc { int kind; Constraint c; Inc() : kind(0), c(Constraint::zero_dim_positivity()) {} }; std::vector<Inc> incs(nsteps);
     Data cur = d; std::vector<Data> datas; datas.push_back(cur);
